@@ -9,6 +9,7 @@ set -o pipefail
 if [ ! -d $WT ]; then git -C /repo worktree add --detach $WT HEAD >/dev/null 2>&1 && (cd $WT && meson setup _build >/dev/null && ninja -C _build >/dev/null) || { echo "CONFIRM: worktree build failed"; exit 2; }; fi
 cd $WT; git checkout -q --detach $(git -C /repo rev-parse HEAD) 2>/dev/null; git checkout -- . ; 
 rundemo() {
+  if [ -f $S/run_demo.sh ]; then bash $S/run_demo.sh >/tmp/seed_demo.out 2>&1; return $?; fi
   if [ -f $S/demo.c ]; then gcc -I include -I _build/include -I _build -I src $S/demo.c -o /tmp/seed_demo -L _build/src -lxrl -lm 2>/tmp/seed_demo_cc.log || { echo "demo compile failed"; cat /tmp/seed_demo_cc.log | head; return 99; }
     LD_LIBRARY_PATH=_build/src timeout 600 /tmp/seed_demo >/tmp/seed_demo.out 2>&1; return $?
   elif [ -f $S/demo.cpp ]; then g++ -std=c++17 -I include -I _build/include -I cplusplus -I _build $S/demo.cpp -o /tmp/seed_demo -L _build/src -lxrl -lm 2>/tmp/seed_demo_cc.log || { echo "demo compile failed"; head /tmp/seed_demo_cc.log; return 99; }
